@@ -45,7 +45,7 @@ REPO = os.environ.get("IMB_REPO", "/repo")
 BUILD = os.environ.get("IMB_VERIF_BUILD", os.path.join(VERIF, ".build"))
 OBJROOT = os.path.join(BUILD, "lib", "lib", "CMakeFiles", "IPSec_MB.dir")
 LIBSO = os.path.join(BUILD, "lib", "lib", "libIPSec_MB.so")
-OUT = os.path.join(VERIF, "coq", "Gen", "GenTables.v")
+OUT = os.path.join(os.environ.get("IMB_COQ_DIR") or os.path.join(VERIF, "coq"), "Gen", "GenTables.v")
 TABLES = ["tab_submit_cipher", "tab_flush_cipher", "tab_submit_hash", "tab_flush_hash"]
 ALL_VARIANTS = ["sse_t1", "sse_t2", "sse_t3", "avx2_t1", "avx2_t2", "avx2_t3", "avx2_t4", "avx512_t1", "avx512_t2"]
 
@@ -897,7 +897,7 @@ def generate(results, mgr_off, srcp):
 # ------------------------------------------------------------------------------------------------
 # acknowledged findings: known_findings.txt -> coq/Gen/GenKnownC06.v
 # ------------------------------------------------------------------------------------------------
-OUT_KNOWN = os.path.join(VERIF, "coq", "Gen", "GenKnownC06.v")
+OUT_KNOWN = os.path.join(os.environ.get("IMB_COQ_DIR") or os.path.join(VERIF, "coq"), "Gen", "GenKnownC06.v")
 KNOWN_FILE = os.environ.get("IMB_KNOWN_FINDINGS", os.path.join(VERIF, "known_findings.txt"))
 
 
